@@ -1,5 +1,5 @@
 ID = "C12"
-LEVEL = "other"
+LEVEL = "proof"
 COQ_TARGETS = ["Props/Properties_C12.vo", "Extract/ExtractServer.vo"]
 PROPS_FILES = ["Props/Properties_C12.v"]
 RUNS = [dict(name="server", harness="c12", driver="server", model_ml="server_model", timeout=2400)]
